@@ -100,6 +100,25 @@ theorem C04_unit_table (tbl : List FieldRow) (h : unitTable tbl = true) :
   rw [h r hr]
   simp [Constraint.ok, unitOk]
 
+/-- the same for a constraint spelled differently, on binary64 values: `lo` is a value below 0 and
+    `hi` a value above 1 (the check takes the neighbours of 0 and 1 in binary64, `-2⁻¹⁰⁷⁴` and
+    `1 + 2⁻⁵²`, so that every binary64 value satisfies the hypothesis on `x`); a constraint that
+    accepts 0 and 1 and refuses `lo` and `hi` accepts exactly the values of [0, 1] -/
+theorem C04_unit_table_float (c : Constraint) (lo hi : Rat) (hlo : lo < 0) (hhi : 1 < hi)
+    (h0 : c.ok 0 = true) (h1 : c.ok 1 = true) (hl : c.ok lo = false) (hh : c.ok hi = false) :
+    ∀ x, (x ≤ lo ∨ (0 ≤ x ∧ x ≤ 1) ∨ hi ≤ x) → c.ok x = unitOk x := by
+  intro x hx
+  obtain ⟨ge, gt, le, lt⟩ := c
+  cases ge <;> cases gt <;> cases le <;> cases lt <;>
+    simp only [Constraint.ok, unitOk, Bool.and_eq_true, decide_eq_true_eq, Bool.true_and, Bool.and_true,
+      Bool.and_eq_false_iff, decide_eq_false_iff_not] at h0 h1 hl hh ⊢ <;>
+    grind
+
+example : ∀ x : Rat, (x ≤ -1 / 4 ∨ (0 ≤ x ∧ x ≤ 1) ∨ 5 / 4 ≤ x) →
+    Constraint.ok { gt := some (-1 / 8), lt := some (9 / 8) } x = unitOk x :=
+  C04_unit_table_float _ _ _ (by decide +kernel) (by decide +kernel) (by decide +kernel) (by decide +kernel)
+    (by decide +kernel) (by decide +kernel)
+
 theorem C04_match_iff (m : MatchRow) :
     matchOk m = true ↔
       (m.source.isSome ∨ m.target.isSome) ∧ (0 ≤ m.affinity ∧ m.affinity ≤ 1) ∧
